@@ -43,8 +43,12 @@ package oauth2
 //@   ensures[C18] save_error_outcome: each Store.SaveOAuth2(_) -> ?e => e != nil ==> (result == e && !emits Sess.Put(_, _) && !emits Redirect(_))
 //@
 //@ func (*OAuth2).Start
-//@   property C14 C01 C17
+//@   property C14 C01 C07 C17
 //@   ensures[C17] no_secret_leak: secrets_clean
+//@   -- C07: the remember request travels through the session (oauth2_params); every start
+//@   -- replaces or removes what an earlier, abandoned start left there, so a cookie is
+//@   -- only issued when THIS login asked for it
+//@   ensures[C07] params_replaced: each Redirect(_) => (before Sess.Put(SessionOAuth2Params, _)) || (before Sess.Del(SessionOAuth2Params))
 //@   invariant loop#1 outer: true
 //@   invariant loop#2 inner: true
 //@   ensures[C14] start_issues: each Sess.Put(SessionOAuth2State, ?s) =>
